@@ -103,6 +103,18 @@ def cases(ctx):
     add("recursion", "LIMIT := 1\n*=0x008000\n.macro zz_r(d) {\n.if LIMIT {\n.for zz_i := 0, 2 {\nzz_r(d)\n}\n}\n}\nzz_r(0)\n")
     add("recursion", "*=0x008000\n.macro zz_r(d) {\n.if d {\nzz_r(d)\nzz_r(d)\nzz_r(d)\n} else {\nzz_r(1)\nzz_r(1)\n}\n}\nzz_r(0)\n")
     add("recursion", "*=0x008000\n.macro zz_r(c) {\n{{c}}\n}\n.macro zz_q() {\nzz_r({\nzz_q()\nzz_q()\n})\n}\nzz_q()\n")
+    # table files with lines that are not entries: long runs of hex digits without '=' (rulers, checksums, a cut entry),
+    # blanks between digit groups, lone separators: every such line is skipped in time linear in its length
+    for i, noise in enumerate(["0123456789ABCDEF0123456789abcdef0123456789ABCDEF", "00" * 40, "0 1 2 3 4 5 6 7 8 9 a b c d e f " * 3,
+                               "01 02 03 04 05 06 07 08 09 0A 0B 0C 0D 0E 0F 10 11 12 13 14", "a" * 64 + ":", "4" * 33 + " ",
+                               "abcdef" * 12 + ":12", ("12" * 20 + " ") * 3, "=" , ":=", "0:0:0:0:0:0:0:0:0:0:0:0:0:0:0:0"]):
+        tbl = f"; noise {i}\n41=A\n{noise}\n42=B\n"
+        add("table-noise", "*=0x008000\n.table 'n.tbl'\n.text 'ABBA'\nend:\n.dl end\n", {"n.tbl": {"tbl_text": tbl}})
+    # a block argument that pastes itself: the inner macro's parameter has the same name as the outer one's, so inside the
+    # inner scope `code` is bound to the block { {{code}} } which looks itself up (no macro is applied on the cycle)
+    add("recursion", "*=0x008000\n.macro zz_tw(code) {\n{{code}}\n{{code}}\n}\n.macro zz_pt(code) {\nzz_tw({\n{{code}}\n})\n}\nzz_pt({\nnop\n})\n")
+    add("recursion", "*=0x008000\n.macro zz_tw(code) {\n.if 1 {\n{{code}}\n}\n}\n.macro zz_pt(code) {\nzz_tw({\nnop\n{{code}}\n})\n}\nzz_pt({\nnop\n})\n")
+    add("recursion", "*=0x008000\n.macro zz_tw(body) {\n{{body}}\n{{body}}\n}\n.macro zz_pt(code) {\nzz_tw({\n{{code}}\n})\n}\nzz_pt({\nnop\n})\n")
     # a missing include, the including source named by an absolute / nested / odd path (the name is only a label for
     # the string API, but an include lookup relative to it must still end)
     for fname in ("/zz_abs/dir/main.s", "/main.s", "sub/dir/main.s", "./main.s", "../main.s", "main.s"):
